@@ -120,6 +120,22 @@ Apply(t, op) ==
     [] op.name = "copyfile"  -> CopyOp(t, op.p, op.q, "file")
     [] op.name = "copydir"   -> CopyOp(t, op.p, op.q, "dir")
 
+\* ---- C02: preconditions under which every backend must behave exactly as above
+\*      (source exists, destination parent exists, destination of a copy absent), on a
+\*      canonical call c; outside them a backend may answer differently but must fail
+\*      cleanly: nothing changes except at, below or above (parents) the addressed paths.
+PreC(t, c) ==
+  CASE c.name \in {"write", "wstream"} -> c.p # <<>> /\ IsDir(t, Parent(c.p))
+    [] c.name \in {"remove", "removeall"} -> c.p # <<>> /\ IsExist(t, c.p)
+    [] c.name \in {"copy", "copyfile", "copydir"} -> /\ c.p # <<>> /\ c.q # <<>> /\ IsExist(t, c.p)
+                                                     /\ IsDir(t, Parent(c.q)) /\ ~IsExist(t, c.q)
+    [] c.name = "mkdir" -> c.p # <<>>
+    [] OTHER -> TRUE
+Related(p, a) == IsPrefixOf(p, a) \/ IsPrefixOf(a, p)
+CleanChange(t, t2, addr) ==
+  /\ \A p \in DOMAIN t : (\E a \in addr : Related(p, a)) \/ (p \in DOMAIN t2 /\ t2[p] = t[p])
+  /\ \A p \in DOMAIN t2 : (\E a \in addr : Related(p, a)) \/ (p \in DOMAIN t /\ t2[p] = t[p])
+
 Mutating == {"write", "wstream", "mkdir", "remove", "removeall", "copy", "copyfile", "copydir"}
 BoolOps == {"isexist", "isfile", "isdir"}
 TwoPath == {"copy", "copyfile", "copydir"}
